@@ -88,9 +88,12 @@ func runC03(c c03Case) (*vstat.Failure, c03Res) {
 	// inputs up to 16 KiB must compile within 10 s (typical: milliseconds); the
 	// few larger stress shapes (nesting depth 5000) get a budget that allows for
 	// the parser's super-linear but bounded cost
-	deadline := 10 * time.Second
+	// (deep nesting costs more than linear time: 4000 nested '~' take seconds,
+	// and several times that on a loaded machine; the deadline only has to tell
+	// termination from a hang)
+	deadline := 120 * time.Second
 	if len(src) > 16384 {
-		deadline = 180 * time.Second
+		deadline = 600 * time.Second
 	}
 	o, done := compileWithDeadline(src, deadline)
 	if !done {
@@ -270,7 +273,7 @@ func splitTokens(s string) []string {
 
 func TestC03(t *testing.T) {
 	st := vstat.New("C03", "byte strings: token soup over mtail's keywords/operators/delimiters plus hostile bytes; raw random bytes; mutations of valid programs (generated by G and taken from the repository's examples): truncation at every byte offset (small programs exhaustively), token delete/duplicate/swap/insert, unbalanced brace/paren/quote/slash; constructed stress shapes (nesting of every bracketing and operator form to depth 1..5000, i.e. below and beyond the recursion limit, long regexes, counted repetition, unterminated strings/regexes, huge literals, many declarations). non-trivial = the input gets past the lexer (compiles, or is rejected by the parser beyond the first token, or by the checker/codegen); distinct by input")
-	st.Assumptions = []string{"a compile of an input <= 16 KiB that takes more than 10 s (180 s for the larger stress shapes) is reported as non-termination", "determinism is checked on a canonical dump of the returned object (bytecode with operand types, strings, regexps, metrics)"}
+	st.Assumptions = []string{"a compile of an input <= 16 KiB that takes more than 120 s (600 s for the larger stress shapes) is reported as non-termination (typical: milliseconds; deep nesting: seconds)", "determinism is checked on a canonical dump of the returned object (bytecode with operand types, strings, regexps, metrics)"}
 	runRaw := func(raw json.RawMessage) *vstat.Failure {
 		c, err := vstat.JSON[c03Case](raw)
 		if err != nil {
